@@ -36,7 +36,12 @@ def gen_many_rows(rng):
     """Scale outlier: one record whose derived assembly has well over a
     thousand rows (alternating short ACGT and N runs)."""
     n = rng.randint(520, 1200)
-    seq = "".join(rng.choice(_ACGT) * rng.choice([1, 1, 2]) + "N" * rng.choice([1, 1, 3]) for _ in range(n))
+    if rng.random() < 0.5:
+        seq = "".join(rng.choice(_ACGT) * rng.choice([1, 1, 2]) + "N" * rng.choice([1, 1, 3]) for _ in range(n))
+    else:
+        # ... with a few hundred DISTINCT gap lengths (memoised / pooled gap objects)
+        n = rng.randint(520, 700)
+        seq = "".join(rng.choice(_ACGT) + "N" * (1 + (i * 7) % 300) for i in range(n))
     rec = {"name": "big" + str(rng.randint(1, 9)), "desc": "", "seq": seq, "width": rng.choice([60, 61, len(seq)]), "crlf": False}
     recs = [rec]
     if rng.random() < 0.5:
